@@ -393,8 +393,10 @@ def call_contracts():
                 'implies(len(calls) == 4, calls[3][0] == '
                 '"contract:utils.limit_memory_usage" and calls[3][1][0] == '
                 'engine and calls[3][1][1] == ((1, calls[2][2]),))',
+                # ... and handed on AS IT IS: a lazy result is not touched
+                # at call time (nothing pulled, no other effect logged)
                 'implies(len(calls) == 4, result == calls[2][2])'],
-            serves=('C05', 'C08', 'C12'), native=False))
+            serves=('C05', 'C08', 'C12', 'C14', 'C11'), native=False))
     return cs
 
 
